@@ -607,9 +607,9 @@ func c14Corpus() (*c14WorldSpec, []*c14Event) {
 	}
 	selX := J{"matchLabels": J{"app": "x"}}
 	spec := &c14WorldSpec{Ctl: ctl, IgnoreStatus: true, Parents: []J{
-		mk("ns1", "p1", J{"tier": "a"}, nil, selX),                      // matching
-		mk("ns1", "p2", J{"tier": "b"}, A{fin}, selX),                   // unmatching, carries the finalizer
-		mk("ns2", "p1", J{"tier": "b"}, nil, selX),                      // unmatching
+		mk("ns1", "p1", J{"tier": "a"}, nil, selX),    // matching
+		mk("ns1", "p2", J{"tier": "b"}, A{fin}, selX), // unmatching, carries the finalizer
+		mk("ns2", "p1", J{"tier": "b"}, nil, selX),    // unmatching
 		mk("ns2", "p3", J{"tier": "a"}, nil, J{"matchExpressions": A{J{"key": "app", "operator": "In", "values": A{"x", "y"}}}}),
 	}}
 	pod := func(ns, name string, labels J, refs A) J {
@@ -646,15 +646,15 @@ func c14Corpus() (*c14WorldSpec, []*c14Event) {
 	owned := pod("ns1", "c1", J{"app": "x"}, A{ref("Thing", "p1", "uid-ns1-p1")})
 	for _, c := range []J{
 		owned,
-		pod("ns1", "c2", nil, A{ref("Thing", "p1", "uid-old")}),          // right name, wrong UID
+		pod("ns1", "c2", nil, A{ref("Thing", "p1", "uid-old")}),           // right name, wrong UID
 		pod("ns1", "c3", nil, A{ref("ClusterThing", "p1", "uid-ns1-p1")}), // right name and UID, wrong kind
-		pod("ns2", "c4", nil, A{ref("Thing", "p1", "uid-ns1-p1")}),       // the reference cannot cross namespaces
-		pod("ns1", "c5", nil, A{ref("Thing", "p2", "uid-ns1-p2")}),       // unmatching parent that carries the finalizer
-		pod("ns2", "c6", nil, A{ref("Thing", "p1", "uid-ns2-p1")}),       // unmatching parent without finalizer
-		pod("ns1", "c7", J{"app": "x"}, nil),                             // orphan: p1 selects it (p2 too, but p2...)
-		pod("ns2", "c8", J{"app": "y"}, nil),                             // orphan: only p3's matchExpressions
-		pod("ns3", "c9", J{"app": "x"}, nil),                             // orphan in a namespace without parents
-		pod("ns1", "c10", J{"app": "q"}, nil),                            // orphan nobody selects
+		pod("ns2", "c4", nil, A{ref("Thing", "p1", "uid-ns1-p1")}),        // the reference cannot cross namespaces
+		pod("ns1", "c5", nil, A{ref("Thing", "p2", "uid-ns1-p2")}),        // unmatching parent that carries the finalizer
+		pod("ns2", "c6", nil, A{ref("Thing", "p1", "uid-ns2-p1")}),        // unmatching parent without finalizer
+		pod("ns1", "c7", J{"app": "x"}, nil),                              // orphan: p1 selects it (p2 too, but p2...)
+		pod("ns2", "c8", J{"app": "y"}, nil),                              // orphan: only p3's matchExpressions
+		pod("ns3", "c9", J{"app": "x"}, nil),                              // orphan in a namespace without parents
+		pod("ns1", "c10", J{"app": "q"}, nil),                             // orphan nobody selects
 	} {
 		evs = append(evs,
 			&c14Event{Src: "child", Kind: "add", Obj: c, Role: "corpus"},
